@@ -70,6 +70,29 @@ prop("C15",
      )
 
 
+# ---------------------------------------------------------------------------------------------
+# C16 Rel laws and Schema.Rels
+prop("C16",
+     family="rel",
+     mc=lambda tier: [("MC_Rel", _t(tier, "MC_Rel_quick.cfg", "MC_Rel_thorough.cfg"))],
+     gen=lambda tier: ("MC_Rel", _t(tier, "MC_Rel_quick.cfg", "MC_Rel_thorough.cfg")),
+     driver=lambda tier, seed, gen, out: ["rel", "-gen", gen, "-out", out, "-seed", str(seed)] +
+     _t(tier, ["-sample", "4000", "-reps", "2"], ["-sample", "150000", "-reps", "4"]),
+     trace=("Trace_Rel", "Trace_Rel.cfg"),
+     required=["rel:oneway", "rel:twoway", "rels:nonempty"],
+     level_text="TLC proves the C16 laws for the intended normalisation (order on the pair type name, relationship "
+                "name) over every relationship of a name universe chosen to contain colliding concatenations "
+                "('ab'+'c' vs 'a'+'bc', names with '_'), and that one listing entry per class results; it emits every "
+                "relationship and every coherent schema of the bound; the driver evaluates the real Invert / "
+                "Normalize / String on each and the real Schema.Rels() for every order of adding the types; the "
+                "laws are judged by TLC on the observed values.",
+     level_note="Names over 4 symbols, 3-4 type names, 3-5 relationship names, schemas of <=2 types and <=3-4 "
+                "relationships. Map iteration order inside Rels() is sampled by repetition. Relationships that are "
+                "their own inverse with different cardinalities are outside the domain.",
+     assumptions=["relationship and type names are non-empty", "self-inverse relationships with unequal cardinalities excluded"],
+     )
+
+
 def run(pid, tier, seed):
     P = PROPS[pid]
     if "run" in P:
